@@ -3,5 +3,11 @@
 #![allow(missing_docs, unused_imports, unused, dead_code, unreachable_pub)]
 #![allow(clippy::all, clippy::pedantic)]
 
-// child-module probe: `super` is the repository module this file is included in
-use super::*;
+// Child-module probe of the repository module `packet`. Sub-files (one owner each) see that
+// module as `super::super` and may touch its private items.
+#[path = "packet_a4.rs"]
+pub mod a4;
+#[path = "packet_a5.rs"]
+pub mod a5;
+#[path = "packet_a6.rs"]
+pub mod a6;
